@@ -57,7 +57,11 @@ func runC13(c *core.Ctx) {
 				depthArgs = nil
 			}
 		}
-		all := gen.Names(r, nrec+5, namesCSV)
+		extra := 5
+		if r.Intn(12) == 0 {
+			extra = 40 // enough names for days with more than 32 different foods
+		}
+		all := gen.Names(r, nrec+extra, namesCSV)
 		recipes, basics, unknown := all[:nrec], all[nrec:nrec+3], all[nrec+3:]
 		book := gen.RandomBook(r, gen.BookOpts{Recipes: nrec, Basics: 3, MaxDepth: depth, Exact: false, RecipeNames: recipes, BasicNames: basics})
 		for ri := range book {
